@@ -14,6 +14,7 @@ and marker test, hence for any regular expressions whatsoever, and for every
 list of lines.
 -/
 import RB.Proofs.Lemmas.Adapters
+import RB.Proofs.Lemmas.AdaptersValidation
 
 namespace RB.Adapters
 
@@ -177,11 +178,35 @@ theorem c12_validation_wf_full_fails (faulty : Bool) (inv : Nat) (text : List Ch
     parse .validation faulty inv text = .intDigitsError := by
   simp only [parse, h, if_true]
 
-/-- such lines exist; shown with the limit scaled down from 4300 to 3 digits (the kernel cannot
-evaluate the matcher on a 4301-digit literal; the real witness is in the corpus and is replayed
-on the code by every check run) -/
-example : actorsOverlongWith 3 "[Total]\tA#9999\tM#1\tP#1".toList = true ∧
-    actorsOverlongWith 3 "[Total]\tA#999\tM#1\tP#1".toList = false := by decide +kernel
+/-- a summary line whose first counter has `n` digits -/
+def overlongLine (n : Nat) : ALine :=
+  { ws1 := [' '], a := List.replicate n '9', ws2 := [' '], m := ['1'], ws3 := [' '], p := ['1'], tail := [] }
+
+theorem overlongLine_valid (n : Nat) (hn : 0 < n) : (overlongLine n).Valid := by
+  have hb : Blank [' '] := ⟨by decide, by decide⟩
+  have hd : Digits ['1'] := ⟨by decide, by decide⟩
+  refine ⟨hb, ⟨?_, ?_⟩, hb, hd, hb, hd, Or.inl rfl⟩
+  · intro h
+    have := congrArg List.length h
+    simp only [overlongLine, List.length_replicate, List.length_nil] at this
+    omega
+  · intro c hc
+    have : c = '9' := (List.mem_replicate.mp hc).2
+    subst this; decide
+
+/-- the full-size witness of `c12_validation_wf_full_fails`: the line `[Total] A#99…9 M#1 P#1` with more
+than 4300 nines (for instance 4301) is an over-long summary line — shown symbolically with the
+`classify_render` lemmas of C05, because the kernel cannot evaluate the matcher on such a literal -/
+theorem c12_validation_overlong_witness (n : Nat) (hn : intMaxStrDigits < n) :
+    actorsOverlong (overlongLine n).render = true := by
+  have hv := overlongLine_valid n (by unfold intMaxStrDigits at hn; omega)
+  simp only [actorsOverlong, actorsOverlongWith, (overlongLine n).noValidation hv, (overlongLine n).pmatch hv,
+    capD, cap]
+  have : ((overlongLine n).a).length = n := by simp only [overlongLine, List.length_replicate]
+  simp [this, hn]
+
+example : actorsOverlong (overlongLine 4301).render = true :=
+  c12_validation_overlong_witness 4301 (by decide)
 
 /-- a common marker in the text the adapter looks at, faulty results not
 requested: rejected as invalid (all adapters but ValidationLog; JMH looks at the
